@@ -6,7 +6,14 @@ globals().update(
         pid="C06",
         props=["JaqalProofs/Props/C06.lean"],
         targets=["JaqalProofs.Props.C06"],
-        diffs=[("harness.agents.pass2_diff", 700, 4000), ("harness.agents.emu_diff", 150, 1500)],
+        diffs=[
+            # the correspondence of both scripts is kept in full; of their direct oracles only those that state C06
+            # (the others state C05 / C03 / C13 and are judged by those checks — in particular C05's open known finding
+            # `defaulted-stop-frozen` surfaces through meaning_under_overrides and must not be reported a second time here)
+            ("harness.agents.pass2_diff", 700, 4000, {"slice_equation", "consumers_agree", "alias_same_as_direct",
+                                                      "fill_in_map_no_name_capture", "fill_in_map_same_meaning_and_fundamental"}),
+            ("harness.agents.emu_diff", 150, 1500, {"alias_same_as_direct", "kron_reference"}),
+        ],
         trusted=[
             STD_TRUST,
             "hand-written model JaqalModel/Model/Resolve.lean of Register.resolve_size / resolve_qubit and NamedQubit.resolve_qubit; specification JaqalModel/Spec/Sem.lean, where a register DENOTES the list of fundamental qubits it stands for and a slice is the sub-list picked by range(start, stop, step) — written independently of the closed-form start + i·step arithmetic; C06_resolve_eq_spec proves the two agree for every chain depth, negative steps, let-valued bounds and sizes",
